@@ -11,8 +11,8 @@ RULE = ("Hypothesis programs of 1-5 data directives (.byte/.db .word/.dw .dword 
         "0, +-1, +-(2^n-1), +-2^n, +-(2^n+1), 2^(n-1), literal or through symbols defined before/after; .ascii/.asciz with every "
         "escape form, all three quotes, raw newlines, <n> chunks for n in -2..257, over charsets bk utf-8 koi8-r latin-1 cp866; "
         ".blkb/.blkw counts incl. -1 0 65535 65536; .even/.odd/.align 1..64) placed at a steered address residue, followed by a "
-        "sentinel byte; in half of the programs the directives form a block of their own (.repeat body, included file, second "
-        "linked file at a non-zero offset) followed by .even / .align 4 and sentinels, so that the block's length matters. Oracle: the directive rules of the property (value mod 2^n little endian, .dword high word first, codec "
+        "sentinel byte; in half of the programs the directives form a block of their own (.repeat body executed 1-3 times - the copies differ when the body's padding depends on the "
+        "address -, included file, second linked file at a non-zero offset) followed by .even / .align 4 and sentinels, so that the block's length matters. Oracle: the directive rules of the property (value mod 2^n little endian, .dword high word first, codec "
         "bytes, exact zero fill) and the must-fail set (|v| >= 2^n, negative or >= 2^16 count, <n> outside 0..255, unencodable "
         "character, unknown escape, word data at an odd address), asserted in both directions. Exhaustive sub-part: .even/.odd/"
         ".align m for every m in 1..64 at every residue 0..m-1 (and 0..7). Non-trivial: >= 1 boundary value, escape, error or "
@@ -118,8 +118,9 @@ def program(draw):
     n = draw(st.integers(1, 5))
     dirty_at = draw(st.integers(0, n - 1)) if draw(st.integers(0, 9)) < 3 else -1
     items = [draw(directive(charset, i == dirty_at)) for i in range(n)]
-    wrap = draw(st.sampled_from([None, None, None, "repeat", "include", "second"]))
+    wrap = draw(st.sampled_from([None, None, None, "repeat", "repeat", "include", "second"]))
     return {"kind": "c06", "residue": draw(st.integers(0, 7)), "items": items, "wrap": wrap, "pad": draw(st.integers(1, 9)),
+            "copies": draw(st.sampled_from([1, 2, 3, 3])),
             "charset": charset, "base": draw(st.sampled_from([None, None, 0, 0o1001, 0o40000])),
             "ints": draw(st.lists(st.integers(0, 255), min_size=1, max_size=20)),
             "rules": sorted(draw(st.sets(st.sampled_from(["radix", "case-directive", "directive-alias", "blanks", "case-radix"]), max_size=3)))}
@@ -160,9 +161,35 @@ def build(case):
     labels = set()
     nt = False
     nsym = 0
+    prims = []      # what the statements of `body` do, in order: replayed for the further copies of a .repeat
+
+    def apply(prim):
+        nonlocal nt
+        addr = B + len(image)
+        kind = prim[0]
+        if kind == "raw":
+            image.extend(prim[1])
+        elif kind == "wordish":
+            if addr % 2:
+                errors.add("odd-address")
+                labels.add("odd-address")
+                nt = True
+                image.extend(b"\0")  # pdpy11 pads; irrelevant since the build must fail
+            image.extend(prim[1])
+        elif kind in ("even", "odd", "align"):
+            pad = (addr % 2 == 1) if kind == "even" else (addr % 2 == 0) if kind == "odd" else (-addr) % prim[1]
+            image.extend(b"\0" * int(pad))
+            if pad and len(prim) > (2 if kind == "align" else 1):
+                nt = True
+                labels.add("pad-nonzero")
+
+    def emit(*prim):
+        prims.append(prim)
+        apply(prim)
+
     r = case["residue"]
     body.append({"k": "blk", "d": "blkb", "e": ("num", r)})
-    image += b"\0" * r
+    emit("raw", b"\0" * r)
 
     def spell(v, how):
         nonlocal nsym
@@ -189,13 +216,8 @@ def build(case):
             labels.add("dir-" + k)
             if k != "byte" and addr % 2 and not it.get("keep_odd"):
                 body.insert(len(body) - 1, {"k": "even"})
-                image += b"\0"
-                addr += 1
-            if k != "byte" and addr % 2:
-                errors.add("odd-address")
-                labels.add("odd-address")
-                nt = True
-                image += b"\0"  # pdpy11 pads; irrelevant since the build must fail
+                emit("even")
+            data = bytearray()
             vals = it["vals"] or [0]
             for v in vals:
                 if abs(v) >= n:
@@ -208,19 +230,21 @@ def build(case):
                     nt = True
                 v %= n
                 if k == "byte":
-                    image.append(v)
+                    data.append(v)
                 elif k == "word":
-                    image += struct.pack("<H", v)
+                    data += struct.pack("<H", v)
                 else:
-                    image += struct.pack("<HH", v >> 16, v & 0xFFFF)
+                    data += struct.pack("<HH", v >> 16, v & 0xFFFF)
+            emit("raw" if k == "byte" else "wordish", bytes(data))
         elif k == "str":
             parts = []
+            data = bytearray()
             for ch in it["chunks"]:
                 if ch[0] == "n":
                     n = ch[1]
                     parts.append("<" + (f"{n}." if ch[2] else (("-" if n < 0 else "") + f"{abs(n):o}")) + ">")
                     if 0 <= n <= 255:
-                        image.append(n)
+                        data.append(n)
                     else:
                         errors.add("value-out-of-bounds")
                         labels.add("chunk-reject")
@@ -250,14 +274,15 @@ def build(case):
                         labels.add("unencodable")
                         nt = True
                     else:
-                        image += enc
+                        data += enc
                         if any(ord(c) > 0x7F for c in val):
                             labels.add("non-ascii")
                             nt = True
             if it["d"] == "asciz":
-                image.append(0)
+                data.append(0)
             labels.add("dir-" + it["d"])
             body.append({"k": "raw", "text": "\t" + render.directive("." + it["d"], style) + " " + " ".join(parts)})
+            emit("raw", bytes(data))
         elif k == "blk":
             n = it["n"]
             body.append({"k": "blk", "d": it["d"], "e": spell(n, it["sym"])})
@@ -267,30 +292,22 @@ def build(case):
                 labels.add("count-reject")
                 nt = True
             else:
-                image += b"\0" * (n * (2 if it["d"] == "blkw" else 1))
+                emit("raw", b"\0" * (n * (2 if it["d"] == "blkw" else 1)))
                 if n:
                     nt = True
                 if n in (0, 65535):
                     labels.add("count-boundary")
         elif k == "pad":
-            pad = (addr % 2 == 1) if it["d"] == "even" else (addr % 2 == 0)
             body.append({"k": it["d"]})
             labels.add("dir-" + it["d"])
-            if pad:
-                image += b"\0"
-                nt = True
-                labels.add("pad-nonzero")
+            emit(it["d"], "counted")
         elif k == "align":
             m = it["m"]
             body.append({"k": "align", "e": spell(m, it["sym"])})
-            pad = (-addr) % m
-            image += b"\0" * pad
             labels.add("dir-align")
-            if pad:
-                nt = True
-                labels.add("pad-nonzero")
+            emit("align", m, "counted")
     body.append({"k": "data", "d": "byte", "es": [("num", 0o377)]})
-    image.append(0o377)
+    emit("raw", b"\xff")
     labels.add("charset-" + charset)
     if not wrap:
         text, _ = render.render_file(pre + body + post, style)
@@ -298,6 +315,16 @@ def build(case):
     # the directives stand in a block of their own (a .repeat body, an included file, a second linked file); what follows the
     # block is sensitive to its length
     labels.add("wrap-" + wrap)
+    copies = case.get("copies", 1) if wrap == "repeat" else 1
+    first_copy = bytes(image[front:])
+    for _ in range(copies - 1):
+        before = len(image)
+        for prim in prims:
+            apply(prim)
+        if bytes(image[before:]) != first_copy:
+            labels.add("repeat-copies-differ")
+    if copies > 1:
+        labels.add(f"repeat-copies-{copies}")
     tail = "\t.even\n\t.byte 376\n\t.align 4\n\t.byte 375\n"
     if (B + len(image)) % 2:
         image += b"\0"
@@ -305,7 +332,7 @@ def build(case):
     image += b"\0" * ((-(B + len(image))) % 4)
     image.append(0o375)
     if wrap == "repeat":
-        text, _ = render.render_file(pre + [{"k": "repeat", "e": ("num", 1), "body": body}] + post, style)
+        text, _ = render.render_file(pre + [{"k": "repeat", "e": ("num", copies), "body": body}] + post, style)
         return text + tail, (None if errors else bytes(image)), errors, sorted(labels), nt
     unit, _ = render.render_file(pre + body + post, style)
     head = (f"\t.link {base:o}\n" if base is not None else "") + f"\t.blkb {front:o}\n"
